@@ -42,28 +42,28 @@ func isAPI(kind string) bool { return !strings.HasPrefix(kind, "world.") }
 // call is computed from the pre-state and the arguments (analyse), in the order
 // in which the code under test checks things.
 const (
-	cValid            = "valid"
-	cPassthrough      = "passthrough"
-	cUnknownID        = "unknown-id"
-	cUnknownParent    = "unknown-parent"
-	cBadParentType    = "invalid-parent-type"
-	cConfig           = "config-provisioned"
-	cRunning          = "running"
-	cHasConnectors    = "has-connectors"
-	cHasProcessors    = "has-processors"
-	cEmptyName        = "empty-name"
-	cDupName          = "dup-name"
-	cLongName         = "long-name"
-	cLongDesc         = "long-description"
-	cInvalidType      = "invalid-type"
-	cUnknownPlugin    = "unknown-plugin"
-	cStalePlugin      = "current-plugin-unknown"
-	cEmptyPlugin      = "empty-plugin"
-	cInvalidSettings  = "invalid-settings"
-	cNegWindow        = "negative-dlq-window"
-	cNegThreshold     = "negative-dlq-threshold"
-	cBadWindow        = "dlq-threshold-not-below-window"
-	cNegWorkers       = "negative-workers"
+	cValid           = "valid"
+	cPassthrough     = "passthrough"
+	cUnknownID       = "unknown-id"
+	cUnknownParent   = "unknown-parent"
+	cBadParentType   = "invalid-parent-type"
+	cConfig          = "config-provisioned"
+	cRunning         = "running"
+	cHasConnectors   = "has-connectors"
+	cHasProcessors   = "has-processors"
+	cEmptyName       = "empty-name"
+	cDupName         = "dup-name"
+	cLongName        = "long-name"
+	cLongDesc        = "long-description"
+	cInvalidType     = "invalid-type"
+	cUnknownPlugin   = "unknown-plugin"
+	cStalePlugin     = "current-plugin-unknown"
+	cEmptyPlugin     = "empty-plugin"
+	cInvalidSettings = "invalid-settings"
+	cNegWindow       = "negative-dlq-window"
+	cNegThreshold    = "negative-dlq-threshold"
+	cBadWindow       = "dlq-threshold-not-below-window"
+	cNegWorkers      = "negative-workers"
 )
 
 var allClasses = []string{cValid, cPassthrough,
@@ -74,17 +74,22 @@ var allClasses = []string{cValid, cPassthrough,
 // that select a different code path or make a different defect visible. The
 // variant is appended to the operation kind in keys ("connectors.Update+plugin-changed").
 const (
-	vPluginChanged = "+plugin-changed"
-	vHasState      = "+has-state"
-	vOnPipeline    = "+on-pipeline"
-	vOnConnector   = "+on-connector"
+	vOnPipeline  = "+on-pipeline"
+	vOnConnector = "+on-connector"
+)
+
+// Traits of a call that make additional defects visible but do not select a
+// different code path; they are evidence classes only (not part of keys: the
+// shapes they enable, e.g. memory-connector-state, already say so).
+const (
+	trPluginChanged = "trait:plugin-changed"
+	trHasState      = "trait:connector-has-state"
 )
 
 // opNames lists every operation name that can appear in a key.
 var opNames = func() []string {
 	out := append([]string{}, apiKinds...)
-	return append(out, kConnUpdate+vPluginChanged, kProcUpdate+vPluginChanged, kConnDelete+vHasState,
-		kProcDelete+vOnPipeline, kProcDelete+vOnConnector)
+	return append(out, kProcDelete+vOnPipeline, kProcDelete+vOnConnector)
 }()
 
 // Fault positions (closed vocabulary, used in keys).
@@ -298,6 +303,7 @@ const (
 type analysis struct {
 	class        string
 	variant      string // "" or one of the v* constants
+	trait        string // "" or one of the tr* constants
 	expect       int
 	guardRunning bool // the targeted resource belongs to a running pipeline
 	guardConfig  bool // the targeted resource (or its pipeline) is provisioned by a config file
@@ -365,7 +371,7 @@ func analyse(v *View, r resolved) analysis {
 		a.creates = "pl"
 		a.apply = func(v *View, id string) {
 			v.Pipelines[id] = &VPipeline{ID: id, Name: r.name, Description: r.desc, ProvisionedBy: int(pipeline.ProvisionTypeAPI),
-				DLQ: VDLQ{Plugin: pipeline.DefaultDLQ.Plugin, Settings: cloneSS(pipeline.DefaultDLQ.Settings), WindowSize: pipeline.DefaultDLQ.WindowSize, WindowNackThreshold: pipeline.DefaultDLQ.WindowNackThreshold},
+				DLQ:    VDLQ{Plugin: pipeline.DefaultDLQ.Plugin, Settings: cloneSS(pipeline.DefaultDLQ.Settings), WindowSize: pipeline.DefaultDLQ.WindowSize, WindowNackThreshold: pipeline.DefaultDLQ.WindowNackThreshold},
 				Status: int(pipeline.StatusUserStopped), ConnectorIDs: []string{}, ProcessorIDs: []string{}}
 		}
 
@@ -515,7 +521,7 @@ func analyse(v *View, r resolved) analysis {
 				set(cLongName, expAny)
 			}
 			if op.Plugin != c.Plugin {
-				a.variant = vPluginChanged
+				a.trait = trPluginChanged
 			}
 			a.touched = []string{"conn:" + r.id}
 			a.apply = func(v *View, _ string) {
@@ -533,7 +539,7 @@ func analyse(v *View, r resolved) analysis {
 				set(cRunning, expFail)
 			}
 			if c.State != "" || c.LastActive != "<nil>" {
-				a.variant = vHasState
+				a.trait = trHasState
 			}
 			a.touched = []string{"pl:" + c.PipelineID}
 			a.apply = func(v *View, _ string) {
@@ -632,7 +638,7 @@ func analyse(v *View, r resolved) analysis {
 				set(cNegWorkers, expAny)
 			}
 			if op.Plugin != pr.Plugin {
-				a.variant = vPluginChanged
+				a.trait = trPluginChanged
 			}
 			a.touched = []string{"proc:" + r.id}
 			a.apply = func(v *View, _ string) {
